@@ -161,6 +161,54 @@ def run(ctx):
         roundtrip(cr, 4, 5, 0, b"restricted", au=au, ag=ag, du=du, dg=dg, kind="restriction")
     for (eu, eg) in ((0, 0), (1, 2), (65534, 65535), (65536, 65537), (2 ** 31 - 1, 2 ** 31), (2 ** 32 - 2, 2 ** 32 - 2)):
         roundtrip(cr, 3, 3, 3, b"identity " * 10, eu=eu, eg=eg, kind="identity")
+    # "when FIRST decoded by an authorized client": attempts by clients that are not authorized come before it
+    for (au, ag, du, dg, wu, wg, data) in ((7, ANY, 7, 8, 9, 8, b"uid-restricted"), (ANY, 8, 7, 8, 7, 9, b""), (0, ANY, 0, 0, 65534, 65534, b"for root"),
+                                           (65534, 65534, 65534, 65534, 0, 0, b"not for root")):
+        r, diff = cr.encode_both(uid=1000, gid=1001, cipher=4, mac=5, zip_=0, auth_uid=au, auth_gid=ag, data=data)
+        if r is None or r["error_num"] != 0:
+            continue
+        outcomes = []
+        for _ in range(2):
+            w, mm, diff = cr.decode_both(r["data"], uid=wu, gid=wg)
+            outcomes.append(w and w["error_num"])
+            if diff:
+                mism.append(cr.mismatches[-1])
+        d, mm, diff = cr.decode_both(r["data"], uid=du, gid=dg)
+        if diff:
+            mism.append(cr.mismatches[-1])
+        ctx.count(("refused-then-first", au, ag, du, dg, wu, wg))
+        dist["refused-then-first"] = dist.get("refused-then-first", 0) + 1
+        if d is None or d["error_num"] != 0 or d["data"] != data:
+            fails.append({"why": "round trip broken: a credential restricted to (uid %d, gid %d) gives error %s to its FIRST authorized decoder "
+                                 "(uid %d gid %d) after attempts by the unauthorized client (uid %d gid %d) answered %s"
+                                 % (au, ag, d and (d["error_num"], d["error_str"]), du, dg, wu, wg, outcomes),
+                          "cred_hex": r["data"].hex()})
+    # "compression reported as none when it would not shrink the data": payloads built to land on and around the tie
+    # (n random bytes then zeros), cipher none so the stored interior's length can be read off the credential
+    ties = 0
+    for n, k in [(n, k) for n in (range(0, 144) if ctx.thorough else list(range(0, 40, 4)) + list(range(40, 144, 26))) for k in range(4, 13)]:
+        for z in (2, 3):
+            data = bytes(rng.getrandbits(8) for _ in range(n)) + bytes(k)
+            r, diff = cr.encode_both(uid=1000, gid=1001, cipher=0, mac=2, zip_=z, data=data)
+            if diff:
+                mism.append(cr.mismatches[-1])
+            if r is None or r["error_num"] != 0:
+                continue
+            p_ = cr.o.parse(r["data"])
+            ctx.count(("zip-tie", n, z, data))
+            dist["zip-tie"] = dist.get("zip-tie", 0) + 1
+            if p_ is None:
+                continue
+            import hostile as _h
+            body = _h.unarmor(r["data"])
+            stored = len(body) - 5 - 16          # outer header (no realm, no IV) and the 16-byte md5 MAC
+            plain = 8 + 1 + 4 + 28 + len(data)   # salt, addr_len, addr, 7 words, payload
+            ties += (stored in (plain - 1, plain, plain + 1) and p_["msg"]["zip"] != 0) or (p_["msg"]["zip"] == 0)
+            if p_["msg"]["zip"] != 0 and stored >= plain:
+                fails.append({"why": "round trip broken: compression type %d is reported although it does not shrink the data (stored interior "
+                                     "%d bytes, uncompressed %d bytes); 'none' is required" % (p_["msg"]["zip"], stored, plain),
+                              "cipher": 0, "mac": 2, "zip": z, "data_hex": data.hex()})
+    dist["zip-tie-exact"] = ties
     # random requests
     for _ in range(600 if ctx.thorough else 120):
         c, m, z = rng.choice([0, 1, 2, 3, 4, 5]), rng.choice([1, 2, 3, 4, 5, 6]), rng.choice(ZIPS)
